@@ -47,6 +47,9 @@ func runHarness(c *lib.Ctx, h *harness) {
 				probs = append(probs, p...)
 			}
 			c.Outcome(h.Name + ":" + out)
+			if execs == 2 || execs%5003 == 0 {
+				c.Sample(map[string]any{"harness": h.Name, "preemption_bound": b, "schedule_choices": append([]int{}, x.Choices...), "choice_points": len(x.Points), "outcome": out})
+			}
 			if len(probs) > 0 {
 				cs := schedCase{Harness: h.Name, Choices: append([]int{}, x.Choices...)}
 				lib.ConfirmAndRecord(c, cs, probs, func() []lib.Problem { return replayOne(h, cs.Choices) })
